@@ -463,11 +463,68 @@ fn corpus_fixpoints(ctx: &mut Ctx) {
     }
 }
 
+/// Legal spellings at the edges of the grammar that the structured generators do not write (leap seconds,
+/// separators inside exponents, zero offsets in named zones, old grid versions, ...). Each is offered bare,
+/// inside a list, as a dict tag and as a grid cell; rejected ones only count as a class.
+const ZINC_EDGE_SPELLINGS: &[&str] = &[
+    "23:59:60", "23:59:60.5", "12:34:60", "00:00:60.999999999", "2016-12-31T23:59:60Z", "2016-12-31T23:59:60Z UTC", "2016-12-31T18:59:60-05:00 New_York",
+    "1e1_0", "-2.5E+1_2", "7e-3_00", "1_500e0_3kW", "1_0", "1_000.000_1", "-0", "-0.0", "0e0", "1E0", "5e-324", "1.7976931348623157e308", "9223372036854775808", "9999999999999999999", "0.1e1kW",
+    "2021-01-15T12:00:00Z London", "2021-01-15T12:00:00+00:00 London", "2021-01-15T12:00:00Z Reykjavik", "2021-10-31T01:30:00+00:00 London", "2021-10-31T01:30:00+01:00 London",
+    "2021-11-07T01:30:00-05:00 New_York", "2021-11-07T01:30:00-04:00 New_York", "1971-06-01T11:15:00-00:45 Monrovia", "1900-01-01T00:00:00-00:01 London", "0001-01-02T00:00:00Z UTC", "9998-12-30T23:59:59.999999999Z",
+    "2021-06-01T12:00:00-02:30 St_Johns", "2021-06-01T12:00:00+05:45 Kathmandu", "2021-06-01T12:00:00+13:00 Tongatapu", "2021-06-01T12:00:00+14:00 Kiritimati", "2021-06-01T12:00:00-11:00 Pago_Pago",
+    "M(\"x\")", "T(\"x\")", "NA(\"x\")", "INF(\"x\")", "Bin(\"text/plain\")", "C(0,0)", "C(-90,-180)", "C(1e1,1_0)", "@a \"\"", "@a \"a\"", "`a b`", "`\\`b`", "\"\\u00e9\\uD83D\\uDE00\"", "\"$x ${y}\"", "^a:b-c.d~e",
+    "[]", "[ ]", "{}", "{ }", "[,]", "[1,]", "{a:N}", "{a b:1 c}", "{a,b:1,c}", "[[],{},[{}]]",
+    "ver:\"2.0\"\na\n1\n", "ver:\"3.0\" a b:1\na c,b\n1,N\n,\n", "ver:\"3.0\"\nempty\n", "ver:\"3.0\"\na\n\n", "ver:\"3.0\"\r\na\r\n1\r\n", "ver:\"3.0\"\na\n<<\nver:\"3.0\"\nb\n2\n>>\n",
+];
+const HAYSON_EDGE_SPELLINGS: &[&str] = &[
+    r#"{"_kind":"time","val":"23:59:60"}"#, r#"{"_kind":"time","val":"23:59:60.5"}"#, r#"{"_kind":"dateTime","val":"2016-12-31T23:59:60Z"}"#,
+    r#"{"_kind":"number","val":1e2}"#, r#"{"_kind":"number","val":1E+2,"unit":"kW"}"#, r#"{"_kind":"number","val":-0.0}"#, r#"{"_kind":"number","val":"-INF"}"#, r#"{"_kind":"number","val":"NaN"}"#, "1e400", "-0", "18446744073709551616", "0.1e-7",
+    r#"{"_kind":"dateTime","val":"2021-01-15T12:00:00Z","tz":"London"}"#, r#"{"_kind":"dateTime","val":"2021-11-07T01:30:00-05:00","tz":"New_York"}"#, r#"{"_kind":"dateTime","val":"1971-06-01T11:15:00-00:45","tz":"Monrovia"}"#,
+    r#"{"_kind":"grid","meta":{"ver":"2.0"},"cols":[{"name":"a"}],"rows":[{"a":1}]}"#, r#"{"_kind":"grid","meta":{"ver":"2.0","x":1},"cols":[{"name":"a"}],"rows":[]}"#, r#"{"_kind":"grid","cols":[{"name":"a"}],"rows":[{"a":1,"extra":2}]}"#, r#"{"_kind":"grid","meta":{},"cols":[],"rows":[{"a":1}]}"#,
+    r#"{"_kind":"ref","val":"a","dis":"a"}"#, r#"{"_kind":"ref","val":"a","dis":""}"#, r#"{"_kind":"xstr","type":"Foo","val":"a\u0000b"}"#, r#"{"_kind":"dict"}"#, r#"{"a":null}"#, r#"["m:","n:42","s:x","r:a b"]"#, r#"{"_kind":"uri","val":"m:"}"#,
+];
+
+fn edge_spellings(ctx: &mut Ctx) {
+    for (i, t) in ZINC_EDGE_SPELLINGS.iter().enumerate() {
+        let scalar = !t.contains('\n');
+        let forms: Vec<String> = if scalar {
+            vec![t.to_string(), format!("[{t}]"), format!("[1, {t}, {t}]"), format!("{{a:{t}}}"), format!("ver:\"3.0\"\na,b\n{t},1\n")]
+        } else {
+            vec![t.to_string()]
+        };
+        for (k, text) in forms.iter().enumerate() {
+            ctx.rec.evals += 1;
+            let mut rec = Rec::new();
+            let v = zinc_fixed_point(text, &mut rec);
+            let accepted = rec.classes.contains_key("zinc:accepted");
+            ctx.rec.class(if accepted { "edge-spelling:zinc:accepted" } else { "edge-spelling:zinc:rejected" });
+            if accepted {
+                ctx.rec.nontrivial(key_of(&format!("edge:z:{i}:{k}")));
+            }
+            ctx.report("fixpoint+chunking", v, Doc { bytes: text.clone().into_bytes(), plan: ReaderPlan::default(), origin: "zinc-edge-spelling".into() }.to_json());
+        }
+    }
+    for (i, t) in HAYSON_EDGE_SPELLINGS.iter().enumerate() {
+        for (k, text) in [t.to_string(), format!("[{t}]"), format!("{{\"a\":{t}}}")].iter().enumerate() {
+            ctx.rec.evals += 1;
+            let mut rec = Rec::new();
+            let v = hayson_fixed_point(text, &mut rec);
+            let accepted = rec.classes.contains_key("hayson:accepted");
+            ctx.rec.class(if accepted { "edge-spelling:hayson:accepted" } else { "edge-spelling:hayson:rejected" });
+            if accepted {
+                ctx.rec.nontrivial(key_of(&format!("edge:h:{i}:{k}")));
+            }
+            ctx.report("fixpoint+chunking", v, Doc { bytes: text.clone().into_bytes(), plan: ReaderPlan::default(), origin: "hayson-edge-spelling".into() }.to_json());
+        }
+    }
+}
+
 pub fn run(ctx: &mut Ctx) {
-    ctx.rule("(a) accepted texts (reference-writer output with random legal spellings, accepted mutants of it, the repository's corpus files): d1=decode(t), d2=decode(encode(d1)), d3=decode(encode(d2)) must exist with d1==d2==d3 strictly, for Zinc and Hayson; (b) Parser::parse_value over a reader with generated chunk sizes / Interrupted returns equals from_str, and parse_grid_iterator yields parse_grid's rows in order; (c) for generated grids built row by row (so every row's end offset is known) the iterator hands out row k having consumed no more than the end of the first token after that row + 16 bytes of look-ahead; non-trivial: (a) text differs from its re-encoding, (b) a splitting reader plan, (c) grid with >= 3 rows; distinct by text (+plan)");
+    ctx.rule("(a) accepted texts (reference-writer output with random legal spellings, accepted mutants of it, the repository's corpus files, and a table of ~100 edge spellings - leap seconds, '_' inside exponents, zero offsets in named zones, repeated hours, old grid versions - each bare, in a list, as a tag and as a grid cell): d1=decode(t), d2=decode(encode(d1)), d3=decode(encode(d2)) must exist with d1==d2==d3 strictly, for Zinc and Hayson; (b) Parser::parse_value over a reader with generated chunk sizes / Interrupted returns equals from_str, and parse_grid_iterator yields parse_grid's rows in order; (c) for generated grids built row by row (so every row's end offset is known) the iterator hands out row k having consumed no more than the end of the first token after that row + 16 bytes of look-ahead; non-trivial: (a) text differs from its re-encoding, (b) a splitting reader plan, (c) grid with >= 3 rows; distinct by text (+plan)");
     ctx.assume("the 16 byte slack covers the scanner's peek stash (number/date/time disambiguation peeks up to 10 bytes)");
     let depth = ctx.tier.pick(2, 3) as u32;
     corpus_fixpoints(ctx);
+    edge_spellings(ctx);
     ctx.run_sub::<Doc>("fixpoint+chunking", ctx.tier.pick(64_000, 1_280_000), &move || accepted_docs(depth), &check_fixpoint);
     ctx.run_sub::<LazyGrid>("lazy-rows", ctx.tier.pick(32_000, 640_000), &lazy_grid, &check_lazy);
     for rows in [1000usize, ctx.tier.pick(10_000, 100_000) as usize] {
